@@ -537,7 +537,17 @@ class World:
 
                     def hand_on(ev, dst=dst, a=op['src'], b=op['dst']):
                         if dst.triggered:
-                            self.rec('O', None, None, 'chain-skip', b, a)
+                            # the callback door of succeed/fail on an event that already has its outcome
+                            before = (dst.triggered, getattr(dst, '_ok', None), san(getattr(dst, '_value', None)))
+                            n0 = len(env.log)
+                            try:
+                                dst.trigger(ev)
+                                out = 'ok'
+                            except RuntimeError:
+                                out = 'RuntimeError'
+                            after = (dst.triggered, getattr(dst, '_ok', None), san(getattr(dst, '_value', None)))
+                            again = sum(1 for r in env.log[n0:] if r[0] == 'T' and r[2] == b)
+                            self.rec('O', None, None, 'chain-again', b, a, out, before, after, again)
                             return
                         dst.trigger(ev)
                         self.rec('O', None, None, 'chained', b, a)
